@@ -21,38 +21,39 @@ CONSTANTS N,            \* blocks in the chain
 
 VARIABLES idxLast, stateH, resH, subLog,        \* durable
           queue, pc, cur, lastAcc, lastProc,    \* volatile
-          up, failed, kf                        \* process alive; restart failed (node cannot start); known findings hit
+          up, failed, kf,                       \* process alive; restart failed (node cannot start); known findings hit
+          excused                               \* heights whose lost notification is explained by a known finding
 
-vars == <<idxLast, stateH, resH, subLog, queue, pc, cur, lastAcc, lastProc, up, failed, kf>>
+vars == <<idxLast, stateH, resH, subLog, queue, pc, cur, lastAcc, lastProc, up, failed, kf, excused>>
 Range(s) == {s[i] : i \in DOMAIN s}
 
 Init ==
   /\ idxLast = 0 /\ stateH = 0 /\ resH = 0 /\ subLog = <<0>>       \* fresh start: genesis committed and announced
   /\ queue = <<>> /\ pc = "idle" /\ cur = 0 /\ lastAcc = 0 /\ lastProc = 0
-  /\ up = TRUE /\ failed = FALSE /\ kf = {}
+  /\ up = TRUE /\ failed = FALSE /\ kf = {} /\ excused = {}
 
 (* StatefulBlock.Accept: the index is written (synchronously, durably) before the block is queued *)
 ConsensusAccept ==
   /\ up /\ idxLast < N /\ Len(queue) < 16
   /\ idxLast' = idxLast + 1 /\ queue' = Append(queue, idxLast + 1) /\ lastAcc' = idxLast + 1
-  /\ UNCHANGED <<stateH, resH, subLog, pc, cur, lastProc, up, failed, kf>>
+  /\ UNCHANGED <<stateH, resH, subLog, pc, cur, lastProc, up, failed, kf, excused>>
 
 Take         == /\ up /\ pc = "idle" /\ queue # <<>>
                 /\ cur' = Head(queue) /\ queue' = Tail(queue) /\ pc' = "taken"
-                /\ UNCHANGED <<idxLast, stateH, resH, subLog, lastAcc, lastProc, up, failed, kf>>
+                /\ UNCHANGED <<idxLast, stateH, resH, subLog, lastAcc, lastProc, up, failed, kf, excused>>
 WriteResults == /\ up /\ pc = "taken" /\ resH' = cur /\ pc' = "results"
-                /\ UNCHANGED <<idxLast, stateH, subLog, queue, cur, lastAcc, lastProc, up, failed, kf>>
+                /\ UNCHANGED <<idxLast, stateH, subLog, queue, cur, lastAcc, lastProc, up, failed, kf, excused>>
 CommitState  == /\ up /\ pc = "results" /\ stateH' = cur /\ pc' = "committed"
-                /\ UNCHANGED <<idxLast, resH, subLog, queue, cur, lastAcc, lastProc, up, failed, kf>>
+                /\ UNCHANGED <<idxLast, resH, subLog, queue, cur, lastAcc, lastProc, up, failed, kf, excused>>
 Notify       == /\ up /\ pc = "committed" /\ subLog' = Append(subLog, cur) /\ pc' = "notified"
-                /\ UNCHANGED <<idxLast, stateH, resH, queue, cur, lastAcc, lastProc, up, failed, kf>>
+                /\ UNCHANGED <<idxLast, stateH, resH, queue, cur, lastAcc, lastProc, up, failed, kf, excused>>
 Finish       == /\ up /\ pc = "notified" /\ lastProc' = cur /\ pc' = "idle"
-                /\ UNCHANGED <<idxLast, stateH, resH, subLog, queue, cur, lastAcc, up, failed, kf>>
+                /\ UNCHANGED <<idxLast, stateH, resH, subLog, queue, cur, lastAcc, up, failed, kf, excused>>
 
 (* the process dies: at any point *)
 Crash == /\ up /\ up' = FALSE
          /\ queue' = <<>> /\ pc' = "idle" /\ cur' = 0 /\ lastAcc' = 0 /\ lastProc' = 0
-         /\ UNCHANGED <<idxLast, stateH, resH, subLog, failed, kf>>
+         /\ UNCHANGED <<idxLast, stateH, resH, subLog, failed, kf, excused>>
 
 (* ---- restart as implemented ---------------------------------------------------------------------- *)
 (* vm.extractLatestOutputBlock:                                                                        *)
@@ -69,14 +70,14 @@ RestartOK ==
   /\ up' = TRUE /\ lastAcc' = idxLast /\ lastProc' = idxLast
   /\ subLog' = Append(subLog, idxLast)                        \* Initialize notifies the last accepted block
   /\ queue' = <<>> /\ pc' = "idle" /\ cur' = 0
-  /\ UNCHANGED <<idxLast, stateH, resH, failed, kf>>
+  /\ UNCHANGED <<idxLast, stateH, resH, failed, kf, excused>>
 
 RestartFails ==
   /\ ~up /\ ~failed /\ CodedOutcome # "ok"
   /\ failed' = TRUE
   /\ kf' = kf \cup (IF KF_C18_restart_panics_one_uncommitted_block THEN {"C18_restart_panics_one_uncommitted_block"} ELSE {})
               \cup (IF KF_C18_restart_refused_uncommitted_blocks THEN {"C18_restart_refused_uncommitted_blocks"} ELSE {})
-  /\ UNCHANGED <<idxLast, stateH, resH, subLog, queue, pc, cur, lastAcc, lastProc, up>>
+  /\ UNCHANGED <<idxLast, stateH, resH, subLog, queue, pc, cur, lastAcc, lastProc, up, excused>>
 
 (* ---- restart as the reprocessing design of snow/chain_index.go intends ---------------------------- *)
 (* start from the committed state, re-announce its block (its notification may have been cut off), then *)
@@ -89,9 +90,28 @@ RestartIntended ==
   /\ stateH' = idxLast /\ resH' = idxLast
   /\ subLog' = subLog \o <<stateH>> \o Seq1(stateH + 1, idxLast) \o <<idxLast>>
   /\ queue' = <<>> /\ pc' = "idle" /\ cur' = 0
-  /\ UNCHANGED <<idxLast, failed, kf>>
+  /\ UNCHANGED <<idxLast, failed, kf, excused>>
 
-Restart == IF Mode = "coded" THEN RestartOK \/ RestartFails ELSE RestartIntended
+(* ---- restart of package snow alone, under a Chain that (like vm.VM) commits its state in AcceptBlock and ---- *)
+(* ---- comes back with the block of its committed state: makeConsensusIndex / reprocessFromOutputToInput    ---- *)
+(* re-process and announce every indexed block above the committed state, Initialize announces the last one.  *)
+(* The block AT the committed state is not announced again although its notification may have been cut off.   *)
+KF_C18_committed_block_not_reannounced == ~up /\ idxLast > stateH /\ stateH >= 1 /\ stateH \notin Range(subLog)
+RestartSnow ==
+  /\ ~up /\ ~failed
+  /\ IF idxLast < stateH
+     THEN failed' = TRUE /\ UNCHANGED <<idxLast, stateH, resH, subLog, queue, pc, cur, lastAcc, lastProc, up, kf, excused>>
+     ELSE /\ up' = TRUE /\ lastAcc' = idxLast /\ lastProc' = idxLast
+          /\ stateH' = idxLast /\ resH' = idxLast
+          /\ subLog' = subLog \o Seq1(stateH + 1, idxLast) \o <<idxLast>>
+          /\ queue' = <<>> /\ pc' = "idle" /\ cur' = 0
+          /\ IF KF_C18_committed_block_not_reannounced
+             THEN kf' = kf \cup {"C18_committed_block_not_reannounced"} /\ excused' = excused \cup {stateH}
+             ELSE UNCHANGED <<kf, excused>>
+          /\ UNCHANGED <<idxLast, failed>>
+
+Restart == IF Mode = "coded" THEN RestartOK \/ RestartFails
+           ELSE IF Mode = "snow" THEN RestartSnow ELSE RestartIntended
 
 Next == ConsensusAccept \/ Take \/ WriteResults \/ CommitState \/ Notify \/ Finish \/ Crash \/ Restart
 Spec == Init /\ [][Next]_vars
@@ -112,4 +132,9 @@ FirstIdx(h) == CHOOSE i \in DOMAIN subLog : subLog[i] = h /\ \A j \in 1..(i - 1)
 AtLeastOnceInOrder ==
   /\ up => \A h \in 1..lastProc : h \in Range(subLog)      \* (genesis is not an accept decision)
   /\ \A a, b \in Range(subLog) : a < b => FirstIdx(a) < FirstIdx(b)
+AtLeastOnceInOrderOrKF ==
+  /\ up => \A h \in 1..lastProc : h \in Range(subLog) \cup excused
+  /\ \A a, b \in Range(subLog) : a < b => FirstIdx(a) < FirstIdx(b)
+(* the order of the durable writes of Accept / processAccept: a block is in the index before its state is committed *)
+IndexAheadOfState == stateH <= idxLast
 =============================================================================
